@@ -194,7 +194,7 @@ def obligations(tier, seed):
         size = common.templates.doc(p["schema"], p["doc"]).content.size
         step = 4 if tier == "quick" else 3
         if tier == "quick":
-            p = dict(p, slices=[0, 2, 5, 7, 12, 13], marks=[0, 1, 2, 5], ras=[0, 1, 2, 5, 9, 10, 12])
+            p = dict(p, slices=[0, 2, 5, 7, 12, 13, common.templates.nslices(p["schema"])], marks=[0, 1, 2, 5], ras=[0, 1, 2, 5, 9, 10, 12])
         else:
             p = dict(p, json=True)
         if not p["schema"].startswith("mx"):
